@@ -196,11 +196,25 @@ Definition update_data_key (k : bytes) (i v c : N) : res bytes :=
 Definition fit (n : nat) (src : bytes) : bytes :=
   firstn n src ++ repeat 0 (n - length src).
 
-(* a TKey of class kc for caller data d:  fixed shape: the n body bytes;  terminated: d ++ [t] *)
+(* strconv.FormatUint(n, 10): most significant digit first.  The fuel (number of bits + 1) always suffices:
+   every step divides by 10. *)
+Fixpoint dec_aux (fuel : nat) (n : N) (acc : bytes) : bytes :=
+  match fuel with
+  | O => acc
+  | S f => let acc' := (48 + n mod 10) :: acc in
+           if n <? 10 then acc' else dec_aux f (n / 10) acc'
+  end.
+Definition dec_digits (n : N) : bytes := dec_aux (S (N.to_nat (N.size n))) n [].
+
+(* a TKey of class kc for caller data d:  fixed shape: the n body bytes;  terminated: d ++ [t];  raw: d itself;
+   decimal: d = the 8 big-endian bytes of the uint64;  legacy: the n bytes without header *)
 Definition tkey_of (kc : kclass) (d : bytes) : bytes :=
   match kc_shape kc with
   | KFixed n => new_tkey (kc_class kc) (fit (N.to_nat n) d)
   | KTerm t => new_tkey (kc_class kc) (d ++ [t])
+  | KRaw _ => new_tkey (kc_class kc) d
+  | KDecSep sep ext => new_tkey (kc_class kc) (dec_digits (be_dec d) ++ sep :: ext)
+  | KLegacy n => fit (N.to_nat n) d
   end.
 
 (* what a caller may put into the body so that the class stays prefix free *)
@@ -208,11 +222,17 @@ Definition body_ok (kc : kclass) (d : bytes) : Prop :=
   match kc_shape kc with
   | KFixed _ => True
   | KTerm t => ~ In t d
+  | KRaw n => length d = N.to_nat n              (* what NewTKey(idx) passes; NewTKeyByCoord does not check *)
+  | KDecSep sep _ => sep < 48 \/ 57 < sep        (* the separator is not a decimal digit *)
+  | KLegacy n => 0 < n /\ hd_error d = Some (kc_class kc)   (* a 3d plane: DataShape bytes start with dims = class *)
   end.
 Definition body_okb (kc : kclass) (d : bytes) : bool :=
   match kc_shape kc with
   | KFixed _ => true
   | KTerm t => negb (existsb (N.eqb t) d)
+  | KRaw n => Nat.eqb (length d) (N.to_nat n)
+  | KDecSep sep _ => (sep <? 48) || (57 <? sep)
+  | KLegacy n => (0 <? n) && match d with x :: _ => x =? kc_class kc | [] => false end
   end.
 
 (* keyvalue.NewTKey / neuronjson.NewTKey / annotation.NewTagTKey on a string *)
@@ -236,6 +256,28 @@ Definition decode_term_tkey (kc : kclass) (tk : bytes) : res bytes :=
     | last :: _ =>
       match kc_shape kc with
       | KTerm t => if last =? t then Ok (removelast ib) else Err
-      | KFixed _ => Err
+      | _ => Err
       end
     end).
+
+(* ---- storage.SplitKey / storage.MergeKey (storage/context.go:221, :638) ---- *)
+
+(* SplitKey: k[0] panics on an empty key; a metadata key is all "unversioned"; a data key is cut
+   len(k) - VersionIDSize - ClientIDSize - 1 bytes from its start (a negative cut panics: slice bounds);
+   any other prefix (blob keys) is an error *)
+Definition split_key (k : bytes) : res (bytes * bytes) :=
+  match k with
+  | [] => Panic
+  | p :: _ =>
+    if p =? n_metadataKeyPrefix then Ok (k, [])
+    else if p =? n_dataKeyPrefix then
+      let s := suffix_start k in
+      if (s <? 0)%Z then Panic else Ok (firstn (Z.to_nat s) k, skipn (Z.to_nat s) k)
+    else Err
+  end.
+
+(* MergeKey: append([]byte(unvKey), verKey...) *)
+Definition merge_key (unv ver : bytes) : bytes := unv ++ ver.
+
+(* MetadataContext.SplitKey *)
+Definition metadata_split_key (tk : bytes) : bytes * bytes := (n_metadataKeyPrefix :: tk, []).
